@@ -67,6 +67,9 @@ func (w *World) storeLoadCycleOf(t *rapid.T, st *ev.Stats, checkAlloc bool, i in
 	var script []SOp
 	if len(s.content) > 0 && rapid.Bool().Draw(t, "mutate") {
 		mutateAt = rapid.IntRange(1, min(len(s.content), 6)).Draw(t, "mutateat")
+		if rapid.IntRange(0, 2).Draw(t, "freerunning") == 0 {
+			mutateAt = -1 // free-running mutator goroutine instead of the callback hand-over
+		}
 		script = w.drawScript(t, rapid.IntRange(1, 12).Draw(t, "scriptlen"))
 	}
 	writersBefore := rapid.Bool().Draw(t, "writersbefore")
